@@ -26,13 +26,13 @@ def run(F, R, tier):
         f = {x["name"]: peel(x["e"]) for x in wo[0]["fields"]}
         R.ob("C18-a", "segment follows dynamic edges", f["follow_dynamic"].get("v") is True, "follow_dynamic = %s: dynamically imported modules are missing from the segment" % expr_text(f["follow_dynamic"]), where(wo[0]))
         k = peel_value(f["kind"])
-        R.ob("C18-a", "segment walks with the graph's own kind", k.get("k") == "Field" and k["field"] == "graph_kind" and expr_text(k["e"]) == "self", "kind = %s" % expr_text(f["kind"]), where(wo[0]))
+        R.ob("C18-a", "segment walks with the graph's own kind", k.get("k") == "Field" and k["field"] == "graph_kind" and k.get("adt") == "graph::ModuleGraph" and peel_value(k["e"]).get("lid") == sg["body"]["params"][0].get("lid"), "kind = %s" % expr_text(f["kind"]), where(wo[0]))
         R.ob("C18-a", "segment treats every JS module as checkable", ctor_of(f["check_js"]) == "graph::CheckJsOption::True", "check_js = %s: type dependencies of JS modules are dropped" % expr_text(f["check_js"]), where(wo[0]))
         R.ob("C18-a", "segment walks the real dependencies, not the fast-check ones", f["prefer_fast_check_graph"].get("v") is False, "prefer_fast_check_graph = %s" % expr_text(f["prefer_fast_check_graph"]), where(wo[0]))
     walks = [n for n in sg["_nodes"] if callee_matches(n, ["ModuleGraph::walk"])]
-    R.ob("C18-a", "segment uses the graph's walk from the requested roots", len(walks) == 1 and "roots" in expr_text(walks[0]["args"][0]), "shape changed", sg["file"])
+    R.ob("C18-a", "segment uses the graph's walk from the requested roots", len(walks) == 1 and any(mentions_field(y, "roots") or peel_value(y).get("lid") == sg["body"]["params"][1].get("lid") or any(z.get("lid") == sg["body"]["params"][1].get("lid") for z in walk(y)) for y in through_locals(peel_value(walks[0]["args"][0]["recv"]) if walks[0]["args"][0].get("k") == "MethodCall" else walks[0]["args"][0])) or len(walks) == 1 and any(z.get("res") == "local" and any(w.get("lid") == sg["body"]["params"][1].get("lid") for i_ in through_locals(z) for w in walk(i_)) for z in walk(walks[0]["args"][0])), "shape changed", sg["file"])
     # ---------------- C18-b ------------------------------------------------
-    mm = [n for n in walk(sg["body"]) if n["k"] == "Match" and expr_text(n["scrut"]) == "module_entry"]
+    mm = [n for n in walk(sg["body"]) if n["k"] == "Match" and tyc(F, n["scrut"], "graph::ModuleEntryRef")]
     if R.ob("C18-b", "copy loop found", len(mm) == 1, "shape changed", sg["file"]):
         covered = set()
         ca = False
@@ -75,11 +75,11 @@ def run(F, R, tier):
     a = [n for n in sg["_nodes"] if n["k"] == "Assign" and peel(n["l"]).get("field") == "has_node_specifier"]
     R.ob("C18-c", "segment carries over has_node_specifier", len(a) == 1, "flag not copied", sg["file"])
     a = [n for n in sg["_nodes"] if n["k"] == "Assign" and peel(n["l"]).get("field") == "roots"]
-    R.ob("C18-c", "segment's roots are the requested roots", len(a) == 1 and "roots" in expr_text(a[0]["r"]), "roots not assigned", sg["file"])
+    R.ob("C18-c", "segment's roots are the requested roots", len(a) == 1 and any(w.get("lid") == sg["body"]["params"][1].get("lid") for z in walk(a[0]["r"]) if z.get("res") == "local" for i_ in through_locals(z) for w in walk(i_)), "roots not assigned", sg["file"])
 
     # the segment copies only what the walk yields: every hop of a redirect chain must be yielded
     nx = F.body("<graph::ModuleEntryIterator as std::iter::Iterator>::next")
-    ms = [n for n in nx["_nodes"] if n["k"] == "Match" and "previous_module" in expr_text(n["scrut"])]
+    ms = [n for n in nx["_nodes"] if n["k"] == "Match" and mentions_field(n["scrut"], "previous_module")]
     ok = False
     for m in ms:
         for arm in m["arms"]:
